@@ -303,4 +303,14 @@ def plotCommand (store : Store) (threshold : Int) (fuel : Nat) (files : List (Ro
     else .error eDecode
   | (_, _, none) => .error eNotDone
 
+/-- `threshold := fs.Int("threshold", 4000, …)` in `plotCmd` (bound to the source by a regenerated fact) -/
+def defaultThreshold : Int := 4000
+
+/-- `vegeta plot [-threshold N] [-title T] [-output F] [file…]` (plot.go `plotCmd`): the flags are
+parsed and `plotRun(files, *threshold, *title, *output)` is called — the threshold is the flag's
+value when the flag is given and 4000 otherwise.  Title and output path do not influence the data. -/
+def plotCmdLine (store : Store) (thresholdFlag : Option Int) (fuel : Nat) (files : List (RoundRobin.Dec Result)) :
+    Outcome (List (List F64) × List Bytes) :=
+  plotCommand store (thresholdFlag.getD defaultThreshold) fuel files
+
 end Vegeta.Model.Plot
